@@ -23,6 +23,17 @@ func init() {
 
 func runC40(c *eng.Ctx) {
 
+	// the upload a replica write goes through: when every attempt fails the failure reaches the caller
+	for _, spec := range [][2]string{{"retriedUploadData", "operation.doUploadData"}, {"UploadData", "operation.retriedUploadData"}} {
+		if fn := c.NeedFunc("weed/operation", spec[0]); fn != nil {
+			calls := eng.Find(fn, eng.PlainCallTo(spec[1]))
+			if len(calls) == 0 {
+				c.Undecided("ERR-replica", eng.FuncName(fn)+" upload-attempt", fn.Pos(), spec[1]+" call not found")
+			}
+			c.ErrChecked("ERR-replica", "upload-attempt", fn, calls, "an upload whose attempts all fail returns the error")
+		}
+	}
+
 	// CODEC-filename: the name of the blob travels to the replicas as the filename parameter of the multipart
 	// Content-Disposition header; the receiving side (mime.ParseMediaType) undoes exactly two escapes in a quoted
 	// string: \\ and \". The sender must produce exactly those (the repo's Replacer) between plain quotes, not Go
